@@ -94,7 +94,22 @@ func VerifC11Aggregate() {
 	}
 	if r != nil {
 		vBitmapWf(r, vsym.Param("inv") == 1)
+		// probe: unconstrained unless the result holds a large chunk (then the instance's window keeps the word index concrete)
+		big := false
+		for _, c := range r.highlowcontainer.containers {
+			switch t := c.(type) {
+			case *bitmapContainer:
+				big = true
+			case *arrayContainer:
+				if len(t.content) > 64 {
+					big = true
+				}
+			}
+		}
 		x := vArg32()
+		if !big {
+			x = vsym.U32()
+		}
 		vsym.Assert(vBitmapHas(r, x) == spec(x), "exact-set")
 		vsym.Observe(uint64(len(r.highlowcontainer.keys)))
 		if vsym.Param("inv") == 1 {
